@@ -74,11 +74,14 @@ pub struct WsGenOpts {
     pub allow_misordered: bool,
     /// inject a second failing patch after the first one (it must never be reached)
     pub second_failure: bool,
+    /// a file patch whose target is a directory: loading it is an I/O error, the push must stop
+    /// with an error and write nothing at all
+    pub allow_hard_error: bool,
 }
 
 impl Default for WsGenOpts {
     fn default() -> Self {
-        WsGenOpts { max_patches: 6, max_files: 8, fail_chance: 3, allow_reverse: true, allow_rename: true, allow_mode: true, allow_strip: true, nasty_names: false, allow_dup_entries: true, allow_dir_races: true, max_lines: 30, strict_reject_dirs: false, alt_name_chance: 0, allow_misordered: false, second_failure: false }
+        WsGenOpts { max_patches: 6, max_files: 8, fail_chance: 3, allow_reverse: true, allow_rename: true, allow_mode: true, allow_strip: true, nasty_names: false, allow_dup_entries: true, allow_dir_races: true, max_lines: 30, strict_reject_dirs: false, alt_name_chance: 0, allow_misordered: false, second_failure: false, allow_hard_error: false }
     }
 }
 
@@ -395,6 +398,15 @@ pub fn gen_ws(ch: &mut Chooser, cx: &mut CaseCtx, o: &WsGenOpts) -> WsCase {
                     // canonicalise blocks after direction swap
                     let ops_dir = fix_ops(&old_c, &new_c, &canon_blocks(&ops_dir));
                     let mut path_in_patch = path.clone();
+                    // a target that is a directory (in every state a push could start from)
+                    let mut target_is_dir = false;
+                    if o.allow_hard_error && want_fail && !missing_file && !lines.is_empty() && nl != lines && ch.chance(1, 6) {
+                        let dirs: Vec<String> = states[0].files.keys().filter(|p| p.contains('/')).map(|p| dir_of(p).to_string()).filter(|d| states.iter().all(|st| dir_exists(st, d)) && dir_exists(&next, d)).collect();
+                        if !dirs.is_empty() {
+                            path_in_patch = dirs[ch.below(dirs.len())].clone();
+                            target_is_dir = true;
+                        }
+                    }
                     if missing_file {
                         let cand = new_path(ch, &next, &ever, false).map(|np| if rej_dir_ok(&np) { np } else { format!("missing{}_{}.c", pi, oi) });
                         if let Some(np) = cand.filter(|np| !path_conflicts(&next, np, &ever)) {
@@ -407,7 +419,7 @@ pub fn gen_ws(ch: &mut Chooser, cx: &mut CaseCtx, o: &WsGenOpts) -> WsCase {
                     // differing ---/+++ names (not a rename): the tool must patch the old name if that file
                     // currently exists (on disk or as left by earlier patches of the run), else the new name
                     let mut alt_note: Option<String> = None;
-                    if o.alt_name_chance > 0 && !reverse && !missing_file && !mode_change && ch.chance(o.alt_name_chance, 8) {
+                    if o.alt_name_chance > 0 && !reverse && !missing_file && !target_is_dir && !mode_change && ch.chance(o.alt_name_chance, 8) {
                         let gone: Vec<String> = ever.iter().filter(|p| !next.files.contains_key(*p) && !touched.contains(*p) && !path_conflicts(&next, p, &[])).cloned().collect();
                         if ch.chance(1, 2) {
                             // V1: old name does not exist (never did, or was deleted/renamed away earlier), new = the file
@@ -435,7 +447,7 @@ pub fn gen_ws(ch: &mut Chooser, cx: &mut CaseCtx, o: &WsGenOpts) -> WsCase {
                     }
                     let mut cc = c;
                     let mut dd = d.clone();
-                    if missing_file || alt_note.is_some() {
+                    if missing_file || alt_note.is_some() || target_is_dir {
                         dd.orig_style = false;
                     }
                     let mut fp = build_file_patch(ch, &dd, &chg, &ops_dir, cc, merge);
@@ -446,7 +458,11 @@ pub fn gen_ws(ch: &mut Chooser, cx: &mut CaseCtx, o: &WsGenOpts) -> WsCase {
                     }
                     let mut failing = vec![];
                     let mut fail_reason = None;
-                    if missing_file && path_in_patch != path && !fp.hunks.is_empty() {
+                    if target_is_dir && !fp.hunks.is_empty() {
+                        failing = (0..fp.hunks.len()).collect();
+                        fail_reason = Some("target-is-directory".into());
+                        any_failed = true;
+                    } else if missing_file && path_in_patch != path && !fp.hunks.is_empty() {
                         failing = (0..fp.hunks.len()).collect();
                         fail_reason = Some("missing-file".into());
                         any_failed = true;
